@@ -5,6 +5,8 @@
 package zzverif
 
 import (
+	"github.com/jsightapi/jsight-schema-go-library/fs"
+	"github.com/jsightapi/jsight-schema-go-library/notations/jschema/internal/scanner"
 	"github.com/jsightapi/jsight-schema-go-library/formats/json"
 	"github.com/jsightapi/jsight-schema-go-library/notations/jschema"
 	"github.com/jsightapi/jsight-schema-go-library/zzverif/v"
@@ -101,3 +103,23 @@ func ZZDebug5() {
 }
 
 func init() { ZZHarnesses["ZZDebug5"] = ZZDebug5 }
+
+func ZZDebug6() {
+	text := "[\n  #\n  4,\n  \"z\"\n]"
+	if v.Choose(0, 1) == 1 {
+		text = "[\n  4,\n  \"z\"\n]"
+	}
+	sc := scanner.New(fs.NewFile("s", text))
+	out := ""
+	for i := 0; i < 40; i++ {
+		lex, ok := sc.Next()
+		if !ok {
+			break
+		}
+		out += lex.Type().String() + " "
+	}
+	v.Observe("events", out)
+	v.Fail("debug")
+}
+
+func init() { ZZHarnesses["ZZDebug6"] = ZZDebug6 }
